@@ -2,7 +2,15 @@
 
 package deepcopy
 
-// Contracts for the deepcopy plugin (C09, C01: generator-level and text-level obligations), read by /verif's gvc (comment-only file).
+// Contracts for the deepcopy plugin (C05, C09, C01), read by /verif's gvc (comment-only file).
+//
+// genField and genStatement print statements whose effect is to assign their
+// lvalue operand (thatField / that): o-assigns-operand renders a call of such a
+// generator as "<operand> = ĦS(...)" and checks the generator itself on a wrapper
+// that returns the operand's final value. The functional clause is structural
+// equality (EqC: same nil-ness everywhere, equal leaves) of the copy with the
+// source; "source unchanged" is the heap frame; "no sharing" is the ownership
+// obligation (stored references are freshly allocated) - see C05 in DESIGN.md.
 
 //@ func (g *gen) Add(name string, typs []types.Type) (r string, err error)
 //@ param typs: len=0,1,2,3
@@ -17,3 +25,56 @@ package deepcopy
 
 //@ func hasDeepCopyMethod(input types.Type) (r bool)
 //@ abstract: pred
+
+// prepend computes a local variable name from an operand text (src.F -> src_value):
+// some identifier; two different results are taken to be different names
+//@ func prepend(before string, after string) (r string)
+//@ abstract: text class=Ident
+
+//@ func (g *gen) genField(fieldType types.Type, thisField, thatField string) (err error)
+//@ abstract: stmt effect
+//@ param thisField: classes=Primary,Star type=fieldType
+//@ param thatField: classes=Primary,Star type=fieldType
+//@ emits: stmts
+//@ o-operands: thisField:fieldType thatField:fieldType -> fieldType
+//@ o-assigns-operand: thatField
+//@ o-mutates: thatField
+//@ o-operands-separate
+//@ o-no-sharing
+// a destination that is an array behind a pointer (*dst with dst *[n]T) is filled
+// element by element through the pointer inside a loop: text level only
+//@ o-text-only: contains:class(thatField)=Star,kind(fieldType):Array
+// user DeepCopy methods are trusted to copy: those paths are text-level only
+//@ o-text-only: contains:hasDeepCopyMethod
+//@ o-ensures: [copy-equals-source] EqC(fieldType, r, thisField)
+//@ o-loop: when kind(fieldType)=Array 1: invariant forall j int :: 0 <= j && j < $i ==> EqC(elem(fieldType), thatField[j], thisField[j])
+
+// The helper deriveDeepCopy(dst, src T). For a pointer type both arguments are
+// non-nil and different cells (the property's hypothesis: destination and source
+// share no memory); it writes *dst and freshly allocated cells only. For slice and
+// map types the destination is filled in place: final(dst) is its content afterwards.
+//@ func (g *gen) genFunc(typ types.Type) (err error)
+//@ emits: decls
+//@ serves: deepcopy len=1 typ=typs[0]
+//@ o-sig: (dst, src $typ) ()
+//@ o-mutates: dst
+//@ o-no-sharing
+// Unexported fields of imported structs are written through reflect/unsafe (the
+// engine's contract for that access path covers reads only) and maps whose keys
+// hold references get freshly copied keys (structural equality of maps is keyed by
+// identity): both stay at the text level (parse, type-check), not proved.
+//@ o-text-only: contains:external:true
+//@ o-text-only: decision:deepcopy.canCopy(Key(typ))=no
+//@ o-requires: when kind(typ)=Pointer [dst-non-nil] dst != nil
+//@ o-requires: when kind(typ)=Pointer [src-non-nil] src != nil
+//@ o-requires: when kind(typ)=Pointer [separate] dst != src
+//@ o-assigns: when kind(typ)=Pointer *dst
+//@ o-ensures: when kind(typ)=Pointer [copy-equals-source] EqC(elem(typ), *dst, *src)
+//@ o-final: when kind(typ)=Slice dst
+//@ o-requires: when kind(typ)=Slice len(dst) == len(src)
+//@ o-ensures: when kind(typ)=Slice [copy-equals-source] len(final(dst)) == len(src) && ((final(dst) == nil) <==> (dst == nil)) && forall j int :: 0 <= j && j < len(src) ==> EqC(elem(typ), final(dst)[j], src[j])
+//@ o-loop: when kind(typ)=Slice when deepcopy.canCopy(Elem(typ))=no 1: invariant len(dst) == len(src) && forall j int :: 0 <= j && j < $i ==> EqC(elem(typ), dst[j], src[j])
+//@ o-final: when kind(typ)=Map dst
+//@ o-requires: when kind(typ)=Map dst != nil && len(dst) == 0
+//@ o-ensures: when kind(typ)=Map [copy-equals-source] final(dst) != nil && len(final(dst)) == len(src) && (forall k val :: k in src ==> k in final(dst) && EqC(elem(typ), final(dst)[k], src[k])) && (forall k val :: k in final(dst) ==> k in src)
+//@ o-loop: when kind(typ)=Map 1: invariant dst != nil && len(dst) == $count && (forall k val :: visited(k) ==> k in dst && EqC(elem(typ), dst[k], src[k])) && (forall k val :: k in dst ==> visited(k))
